@@ -343,3 +343,195 @@ Proof.
   intros [W _] T G c b x B Sx. destruct (garbage_free_bucket _ _ _ W G B) as [_ Hg].
   destruct (tombstoned b x) eqn:Tx; auto. exfalso. apply (T c b x B Tx Sx). now rewrite Hg.
 Qed.
+
+(* ---------------------------------------------------------------- progress of the expired-object collection *)
+
+Definition in_sync (s : shard) : Prop := epoch (sh_meta s) = sh_cur s.
+
+Lemma tomb_bins_nil l : forall cur, tomb_bins l cur = [] -> cur = None /\ forall c x t, In (c, x, t) l -> is_tomb t = false.
+Proof.
+  induction l as [|[[c0 x0] t0] r IH]; intros cur H; simpl in H.
+  - destruct cur; [discriminate|]. split; auto. intros c x t [].
+  - destruct (is_tomb t0) eqn:Tt.
+    + destruct cur as [[c' ids]|].
+      * destruct (c' =? c0); [apply IH in H as [H _]; discriminate|discriminate].
+      * apply IH in H as [H _]. discriminate.
+    + destruct (IH _ H) as [H1 H2]. split; auto. intros c x t [E|Hin]; [inversion E; subst; auto|eauto].
+Qed.
+
+Lemma tomb_bins_nonempty l : forall cur c1 ids1,
+  In (c1, ids1) (tomb_bins l cur) -> (forall c0 ids0, cur = Some (c0, ids0) -> ids0 <> []) -> ids1 <> [].
+Proof.
+  induction l as [|[[c0 x0] t0] r IH]; intros cur c1 ids1 H Hc; simpl in H.
+  - destruct cur as [[c' ids]|]; [|contradiction]. destruct H as [E|[]]. inversion E; subst. eapply Hc; eauto.
+  - destruct (is_tomb t0).
+    + destruct cur as [[c' ids]|].
+      * destruct (c' =? c0).
+        -- eapply IH; eauto. intros c2 ids2 E. inversion E; subst. intros E2. now apply app_eq_nil in E2 as [_ E2].
+        -- destruct H as [E|H]; [inversion E; subst; eapply Hc; eauto|].
+           eapply IH; eauto. intros c2 ids2 E. inversion E; subst. discriminate.
+      * eapply IH; eauto. intros c2 ids2 E. inversion E; subst. discriminate.
+    + eapply IH; eauto.
+Qed.
+
+(* the engine's callback deletes an expired unlocked object of a garbage-free, synchronised shard *)
+Lemma expired_one_deletes s c x t :
+  inv s -> gfree s -> no_ts s -> in_sync s -> In (c, x, t) (view_expired (sh_meta s) (sh_cur s)) ->
+  (msize (expired_one s (c, x)) < msize s)%nat.
+Proof.
+  intros I G NT Sy Hin. pose proof I as [W Gi].
+  destruct (view_expired_in _ _ _ _ _ W Hin) as (b & B & Cg & LL & EX & St).
+  destruct (inv_bucket s c b I B) as [Wb Gb]. destruct (garbage_free_bucket _ _ _ W G B) as [_ Hg].
+  assert (Sx : sm_get x (objs b) <> None) by (unfold sm_mem in St; destruct (sm_get x (objs b)); [discriminate|discriminate]).
+  unfold expired_one.
+  assert (VL : view_locked (sh_meta s) c x = false).
+  { unfold view_locked. rewrite B, Cg, (locked_spec b _ x Wb). unfold in_sync in Sy. now rewrite Sy. }
+  rewrite VL.
+  assert (VE : view_exists (sh_meta s) true c x = v_ok).
+  { unfold view_exists. rewrite B, Cg, (ginv_status b x 0 Gb).
+    assert (SD : status_direct b x 0 = st_available).
+    { unfold status_direct. rewrite (is_expired_spec b x 0), (expired_zero b x), (in_garbage_spec b x Wb), (NT c b x B Sx).
+      unfold marked. rewrite Hg. reflexivity. }
+    rewrite SD. simpl. rewrite (ginv_parent_info b x Gb). simpl. unfold stored. now rewrite St. }
+  rewrite VE. simpl.
+  apply (proj2 (delete_objs_size s c [x] I) b x B (or_introl eq_refl)). now left.
+Qed.
+
+(* one pass of a garbage-free synchronised shard whose current epoch is not processed yet *)
+Lemma expired_progress limit s e d :
+  inv s -> (0 < limit)%nat -> gfree s -> ts_inv s -> epoch (sh_meta s) = e -> sh_cur s = e -> sh_done s = d -> d < e ->
+  let s' := gc_pass limit s in
+  ((msize s' < msize s)%nat /\ sh_done s' = d) \/
+  (view_expired (sh_meta s) e = [] /\ sh_meta s' = sh_meta s /\ sh_blob s' = sh_blob s /\ sh_done s' = e).
+Proof.
+  intros I L G T Ee Ec Ed Lt. pose proof (no_ts_of s I T G) as NT.
+  assert (Sy : in_sync s) by (unfold in_sync; congruence).
+  (* the garbage phase has nothing to do *)
+  assert (G1 : gfree (collect_expired limit s)) by (apply (P_collect gfree); auto using gfree_delete).
+  cbv zeta. unfold gc_pass. rewrite (view_garbage_gfree _ limit G1). simpl.
+  unfold collect_expired. rewrite Ec, Ed.
+  replace (d =? e) with false by (symmetry; apply N.eqb_neq; lia).
+  replace (e <? d) with false by (symmetry; apply N.ltb_ge; lia).
+  rewrite <- Ec.
+  destruct (view_expired (sh_meta s) (sh_cur s)) as [|a rest] eqn:VE.
+  - right. rewrite Coq.Lists.List.firstn_nil. simpl. rewrite Ec. auto.
+  - left. destruct limit as [|n]; [lia|]. cbn [firstn].
+    set (batch := a :: firstn n rest).
+    assert (Hb : forall y, In y batch -> In y (view_expired (sh_meta s) (sh_cur s))).
+    { intros y [E|Hy]; rewrite VE; [now left|right; now apply firstn_in in Hy]. }
+    set (others := map (fun t : cid * oid * otype => fst t) (filter (fun t : cid * oid * otype => negb (is_tomb (snd t))) batch)).
+    destruct (tomb_bins batch None) as [|[c1 ids1] rest1] eqn:TB.
+    + (* no tombstone in the batch: the first callback deletes *)
+      simpl. destruct (tomb_bins_nil _ _ TB) as [_ Hnt]. destruct a as [[c x] t].
+      assert (Ht : is_tomb t = false) by (apply (Hnt c x t); now left).
+      unfold others, batch. cbn [filter snd]. rewrite Ht. cbn [negb map fst fold_left].
+      pose proof (expired_one_deletes s c x t I G NT Sy (Hb _ (or_introl eq_refl))) as Hlt.
+      destruct (expired_one_mono s (c, x) I) as [I1 _].
+      destruct (fold_mono expired_one (map (fun t0 : cid * oid * otype => fst t0)
+                   (filter (fun t0 : cid * oid * otype => negb (is_tomb (snd t0))) (firstn n rest))) expired_one_mono _ I1) as [_ L2].
+      assert (Dn : forall l s0, sh_done (fold_left expired_one l s0) = sh_done s0).
+      { induction l as [|[c' y] l' IHl]; intros s0; simpl; auto. rewrite IHl. unfold expired_one.
+        destruct (view_locked (sh_meta s0) c' y); auto.
+        destruct ((view_exists (sh_meta s0) true c' y =? v_ok) || (view_exists (sh_meta s0) true c' y =? v_ecparent)); auto.
+        now destruct (delete_objs_clocks s0 c' [y]) as (_ & _ & E3). }
+      split; [lia|]. rewrite Dn.
+      unfold expired_one. destruct (view_locked (sh_meta s) c x); auto.
+      destruct ((view_exists (sh_meta s) true c x =? v_ok) || (view_exists (sh_meta s) true c x =? v_ecparent)); auto.
+      destruct (delete_objs_clocks s c [x]) as (_ & _ & E3). congruence.
+    + (* the first tombstone bin deletes *)
+      cbn [fold_left fst snd].
+      assert (Hne : ids1 <> []).
+      { apply (tomb_bins_nonempty batch None c1 ids1); [rewrite TB; now left|intros c0 ids0 E; discriminate]. }
+      destruct ids1 as [|y ids1']; [congruence|].
+      destruct (tomb_bins_in batch None c1 (y :: ids1') y) as [[t Hy]|[ids0 [E _]]]; [rewrite TB; now left|now left| |discriminate].
+      pose proof I as [W _].
+      destruct (view_expired_in _ _ _ _ _ W (Hb _ Hy)) as (b & B & _ & _ & _ & St).
+      assert (Hlt : (msize (delete_objs s c1 (y :: ids1')) < msize s)%nat).
+      { apply (proj2 (delete_objs_size s c1 (y :: ids1') I) b y B (or_introl eq_refl)). left.
+        unfold sm_mem in St. destruct (sm_get y (objs b)); [discriminate|discriminate]. }
+      pose proof (delete_objs_inv s c1 (y :: ids1') I) as I1.
+      destruct (fold_mono (fun s' bin => delete_objs s' (fst bin) (snd bin)) rest1
+                  (fun s0 a0 I0 => conj (delete_objs_inv s0 (fst a0) (snd a0) I0) (proj1 (delete_objs_size s0 (fst a0) (snd a0) I0))) _ I1) as [I2 L2].
+      destruct (fold_mono expired_one others expired_one_mono _ I2) as [_ L3].
+      split; [lia|].
+      assert (Dn1 : forall l s0, sh_done (fold_left expired_one l s0) = sh_done s0).
+      { induction l as [|[c' y0] l' IHl]; intros s0; simpl; auto. rewrite IHl. unfold expired_one.
+        destruct (view_locked (sh_meta s0) c' y0); auto.
+        destruct ((view_exists (sh_meta s0) true c' y0 =? v_ok) || (view_exists (sh_meta s0) true c' y0 =? v_ecparent)); auto.
+        now destruct (delete_objs_clocks s0 c' [y0]) as (_ & _ & E3). }
+      assert (Dn2 : forall l s0, sh_done (fold_left (fun s' (bin : cid * list oid) => delete_objs s' (fst bin) (snd bin)) l s0) = sh_done s0).
+      { induction l as [|bin l' IHl]; intros s0; simpl; auto. rewrite IHl.
+        now destruct (delete_objs_clocks s0 (fst bin) (snd bin)) as (_ & _ & E3). }
+      rewrite Dn1, Dn2. destruct (delete_objs_clocks s c1 (y :: ids1')) as (_ & _ & E3). congruence.
+Qed.
+
+Theorem expired_eventually limit : (0 < limit)%nat -> forall k s e d,
+  inv s -> gfree s -> ts_inv s -> epoch (sh_meta s) = e -> sh_cur s = e -> sh_done s = d -> d < e -> (msize s <= k)%nat ->
+  exists n, inv (gc_iter limit n s) /\ gfree (gc_iter limit n s) /\ ts_inv (gc_iter limit n s) /\
+            epoch (sh_meta (gc_iter limit n s)) = e /\ sh_cur (gc_iter limit n s) = e /\ sh_done (gc_iter limit n s) = e /\
+            view_expired (sh_meta (gc_iter limit n s)) e = [].
+Proof.
+  intros L. induction k as [|k IH]; intros s e d I G T Ee Ec Ed Lt Hk.
+  - destruct (expired_progress limit s e d I L G T Ee Ec Ed Lt) as [[Hlt _]|(V & M & B & D)]; [lia|].
+    exists 1%nat. simpl. destruct (pass_progress limit s I L) as (I1 & _ & _).
+    destruct (clocks_pass limit s e e d I (conj Ee (conj Ec (or_introl Ed)))) as (C1 & C2 & _).
+    split; [exact I1|]. split; [now apply gfree_pass|]. split; [now apply ts_inv_pass|].
+    split; [exact C1|]. split; [exact C2|]. split; [exact D|]. now rewrite M.
+  - destruct (pass_progress limit s I L) as (I1 & _ & _).
+    destruct (clocks_pass limit s e e d I (conj Ee (conj Ec (or_introl Ed)))) as (C1 & C2 & _).
+    pose proof (gfree_pass limit s I G) as G1. pose proof (ts_inv_pass limit s I T) as T1.
+    destruct (expired_progress limit s e d I L G T Ee Ec Ed Lt) as [[Hlt Hd]|(V & M & B & D)].
+    + destruct (IH (gc_pass limit s) e d I1 G1 T1 C1 C2 Hd Lt) as (n & H); [lia|]. exists (S n). exact H.
+    + exists 1%nat. simpl. split; [exact I1|]. split; [exact G1|]. split; [exact T1|].
+      split; [exact C1|]. split; [exact C2|]. split; [exact D|]. now rewrite M.
+Qed.
+
+Lemma no_expired_left s e : inv s -> view_expired (sh_meta s) e = [] ->
+  forall c b x, bucket (sh_meta s) c = Some b -> cgc b = false -> sm_get x (objs b) <> None ->
+  expired b e x && negb (live_lock b e x) = false.
+Proof.
+  intros [W _] V c b x B Cg Sx. destruct (expired b e x && negb (live_lock b e x)) eqn:E; auto. exfalso.
+  destruct (sm_get x (objs b)) as [en|] eqn:Gx; [|congruence].
+  assert (Hin : In (c, x, h_typ (e_hdr en)) (view_expired (sh_meta s) e)); [|rewrite V in Hin; destruct Hin].
+  apply (expired_iter_exact (sh_meta s) e _ W). unfold expired_unlocked. apply in_flat_map.
+  exists (c, b). split; [now apply (bucket_in _ _ _ W)|]. cbn [fst snd]. apply in_map_iff.
+  exists (x, h_typ (e_hdr en)). split; auto. unfold expired_unlocked_in. rewrite Cg. apply in_flat_map.
+  exists (x, en). split; [now apply sm_get_some_in|]. cbn [fst snd]. rewrite E. now left.
+Qed.
+
+Lemma iter_pres (P : shard -> Prop) limit : (0 < limit)%nat ->
+  (forall s, inv s -> P s -> P (gc_pass limit s)) -> forall n s, inv s -> P s -> P (gc_iter limit n s) /\ inv (gc_iter limit n s).
+Proof.
+  intros L H. induction n as [|n IH]; intros s I Ps; simpl; auto.
+  destruct (pass_progress limit s I L) as (I1 & _ & _). apply IH; auto.
+Qed.
+
+(* C44 (composition): drain the garbage lists (finitely many passes), let the epoch advance once, drain the
+   expired objects (finitely many passes): the shard then holds nothing that should go at the new epoch *)
+Theorem eventually_clean limit : (0 < limit)%nat -> forall s e',
+  inv s -> ts_inv s -> sh_cur s < e' -> sh_done s < e' ->
+  exists n1 n2,
+    let s3 := gc_iter limit n2 (fst (sstep limit (gc_iter limit n1 s) (STick e'))) in
+    inv s3 /\ garbage_free (sh_meta s3) = true /\ sh_done s3 = e' /\ sh_cur s3 = e' /\ epoch (sh_meta s3) = e' /\
+    forall c b x, bucket (sh_meta s3) c = Some b -> sm_get x (objs b) <> None -> should_go_in b e' x = false.
+Proof.
+  intros L s e' I T Lc Ld.
+  destruct (garbage_eventually limit L (msize s) s I (le_n _)) as (n1 & _ & I1 & G1 & _).
+  destruct (iter_pres ts_inv limit L (ts_inv_pass limit) n1 s I T) as [T1 _].
+  destruct (iter_pres (clocks (epoch (sh_meta s)) (sh_cur s) (sh_done s)) limit L
+              (fun s0 I0 C0 => clocks_pass limit s0 _ _ _ I0 C0) n1 s I (conj eq_refl (conj eq_refl (or_introl eq_refl)))) as [(_ & C2 & C3) _].
+  set (s1 := gc_iter limit n1 s) in *.
+  set (s2 := fst (sstep limit s1 (STick e'))).
+  assert (I2 : inv s2).
+  { destruct I1 as [W1 Gi1]. split; [apply (wf_step (sh_meta s1) (OEpoch e') W1)|exact Gi1]. }
+  assert (G2 : gfree s2) by exact G1.
+  assert (T2 : ts_inv s2) by exact T1.
+  assert (D2 : sh_done s2 < e') by (unfold s2; simpl; destruct C3 as [C3|C3]; rewrite C3; lia).
+  destruct (expired_eventually limit L (msize s2) s2 e' (sh_done s2) I2 G2 T2 eq_refl eq_refl eq_refl D2 (le_n _))
+    as (n2 & I3 & G3 & T3 & E3 & Cu3 & Dn3 & V3).
+  exists n1, n2. cbv zeta. fold s2. set (s3 := gc_iter limit n2 s2) in *.
+  split; [exact I3|]. split; [exact G3|]. split; [exact Dn3|]. split; [exact Cu3|]. split; [exact E3|].
+  intros c b x B Sx. pose proof I3 as [W3 _]. destruct (garbage_free_bucket _ _ _ W3 G3 B) as [Cg Hg].
+  unfold should_go_in. rewrite Cg, (no_ts_of s3 I3 T3 G3 c b x B Sx), (no_expired_left s3 e' I3 V3 c b x B Cg Sx).
+  unfold any_mark, sm_mem. now rewrite Hg.
+Qed.
